@@ -114,9 +114,25 @@ def run(ctx, idx):
             rets = [n for n in own_nodes(f.node) if isinstance(n, ast.Return)]
             if len(rets) == 1 and rets[0].value is not None and sanitised(rets[0].value, {})[0]:
                 helpers[name] = (True, None)
+    # helpers that return the complete quoted literal (e.g. json.dumps)
+    quoting = {}
+    for f in funcs + [g for m in idx.modules.values() for g in m.funcs.values()]:
+        rets = [n for n in own_nodes(f.node) if isinstance(n, ast.Return)]
+        if len(rets) == 1 and isinstance(rets[0].value, ast.Call):
+            c = rets[0].value
+            if isinstance(c.func, ast.Attribute) and c.func.attr == "dumps" and isinstance(c.func.value, ast.Name) and c.func.value.id == "json":
+                ea = next((k.value for k in c.keywords if k.arg == "ensure_ascii"), None)
+                if isinstance(ea, ast.Constant) and ea.value is False:
+                    quoting[f.name] = (True, "json.dumps(..., ensure_ascii=False): only `\\\\` `\\\"` and control escapes, all of which the reader decodes")
+                else:
+                    quoting[f.name] = (False, "json.dumps escapes non-ASCII text as \\uXXXX and characters outside the BMP as UTF-16 surrogate pairs, which the reader's unicode_escape decoding does not recombine: such strings do not read back")
     n_q = 0
     for f in funcs:
         for n in own_nodes(f.node):
+            if isinstance(n, ast.Call) and isinstance(n.func, ast.Name) and n.func.id in quoting and f.name not in quoting:
+                n_q += 1
+                okq, whyq = quoting[n.func.id]
+                ctx.ob("C15.b", "%s::quoted-by(%s)" % (f.key, n.func.id), K.rel(f), n.lineno, okq, whyq)
             if isinstance(n, ast.Call) and isinstance(n.func, ast.Attribute) and n.func.attr == "format" and isinstance(n.func.value, ast.Constant) and isinstance(n.func.value.value, str):
                 fmt = n.func.value.value
                 for i, inside in quoted_slots(fmt):
@@ -148,7 +164,7 @@ def run(ctx, idx):
     if sv is None:
         raise AnalysisError("C15.b: the function choosing between bare and quoted emission was not found")
     cfg = K.cfg_of(idx, sv)
-    quoted_rets = [r for r in cfg.find("return") if isinstance(r.ast.value, ast.Call) and isinstance(r.ast.value.func, ast.Attribute) and r.ast.value.func.attr == "format" and '"' in str(getattr(r.ast.value.func.value, "value", ""))]
+    quoted_rets = [r for r in cfg.find("return") if isinstance(r.ast.value, ast.Call) and ((isinstance(r.ast.value.func, ast.Attribute) and r.ast.value.func.attr == "format" and '"' in str(getattr(r.ast.value.func.value, "value", ""))) or (isinstance(r.ast.value.func, ast.Name) and r.ast.value.func.id in quoting))]
     str_tests = [t for t in cfg.find("test") if "string_types" in t.text() or "isinstance" in t.text() and "str" in t.text()]
     ref_tests = [t for t in cfg.find("test") if "ResultParameter" in t.text()]
     ok = bool(quoted_rets) and bool(str_tests) and bool(ref_tests) and all(cfg.dominates(ref_tests[0], s) for s in str_tests)
@@ -194,6 +210,9 @@ def run(ctx, idx):
                 if isinstance(e, ast.Call) and isinstance(e.func, ast.Attribute) and e.func.attr == "format" and e.args and K.src(e.args[0]) == "%s.name" % n.generators[0].target.id:
                     ok = True
     ctx.ob("C15.d", "%s::argument-order" % ts.key, rel, ts.node.lineno, ok, "arguments emitted in order under their own names" if ok else "arguments are not emitted in command.arguments order under their own names")
+    from .C16 import parser_state
+    ctx.rule("C15.e", "The loader's parser carries no state from one load to the next: every attribute a grammar action sets is reset by parse(), or a fresh Parser is built for each load.")
+    parser_state(ctx, idx, "C15.e")
     # result name and command name
     ok = any("command.result_name" in K.src(n) and "command.name" in K.src(n) for f in funcs for n in own_nodes(f.node) if isinstance(n, ast.Call) and isinstance(n.func, ast.Attribute) and n.func.attr == "format")
     ctx.ob("C15.d", "%s::heads" % ts.key, rel, ts.node.lineno, ok, "each command is written as result_name = name(...)" if ok else "a command is not written as `result_name = command name(...)`")
